@@ -9,7 +9,19 @@ LEAN_MODULES = ["Properties.C05"]
 THEOREMS = ["EngineModel.Properties.C05." + t for t in [
     "C05_v2_track_safe", "C05_v2_beat_safe", "C05_v2_ovw_safe", "C05_v2_cues_safe", "C05_v2_loops_safe",
     "C05_v2_throw_class",
+    "C05_v1_track_safe", "C05_v1_beat_safe", "C05_v1_ovw_safe",
+    "C05_v1_hires_safe", "C05_v1_cues_safe", "C05_v1_loops_safe",
+    "C05_v1_throw_class",
+    "C05_decode_steps", "C05_decode_steps_v1_beat_abs", "C05_decode_steps_faithful", "C05_decode_steps_shape_v2_loops",
     "C05_uncompress_total", "C05_uncompress_no_ub", "C05_uncompress_old_end_counterexample", "C05_unz_safe",
+    "C05_checked_arith_exact", "C05_v1_beat_encode_safe", "C05_missing_guard_overflows_counterexample",
+    "C05_typed_arith_in_range",
+    "C05_decode_steps_shape_v2_cues", "C05_decode_steps_shape_v2_grid", "C05_decode_steps_shape_v2_beat",
+    "C05_decode_steps_shape_v1_cues", "C05_decode_steps_shape_v1_loops", "C05_decode_steps_shape_v1_grid",
+    "C05_decode_steps_shape_v1_beat", "C05_decode_steps_shape_v1_ovw", "C05_decode_steps_shape_v1_hires",
+    "C05_iteration_consumes", "C05_loop_consumes_exact", "C05_decode_reads_faithful", "C05_iteration_reads",
+    "C05_decode_reads",
+    "C05_uncompress_replay_eq_unz", "C05_replay_fuel", "C05_fromBlob_safe",
 ]]
 ASSUMPTIONS = [
     "zlib is not modelled: the theorem about the decompression loops is generic in an inflate oracle that honours the "
@@ -17,14 +29,21 @@ ASSUMPTIONS = [
     "potential growing at most linearly with the input); the tie runs the real libz behind a link-time wrapper that "
     "checks every region handed to inflate() with __asan_region_is_poisoned and counts calls (watchdog)",
     "memory safety inside zlib / libstdc++ is not modelled; what is modelled is that the library honours their preconditions",
+    "a payload is a C++ byte vector, i.e. has fewer than 2^63 bytes (std::vector<std::byte>::max_size() = PTRDIFF_MAX): "
+    "explicit hypothesis `bs.length < maxCount` of the theorems about the three waveform decoders, whose length test "
+    "computes w * (n + 1) in int64_t (checked in the Model)",
     "allocations proportional to the input size succeed (std::bad_alloc would be an exception, not undefined behaviour)",
     "the result-level model of zlib_uncompress used by the tie replaces the loops by the independent Lean inflate "
     "(EngineModel/Zlib/Inflate.lean); its agreement with libz is sampled, not proved",
 ]
 MANIFEST = dict(
     text="Lean theorems: no byte string of any length makes a Model decoder produce an undefined-behaviour outcome "
-         "(every read past the buffer, every signed overflow is an explicit `ub` outcome of the cursor monad, and the "
-         "theorems show it is unreachable), the only exceptions are derived from std::exception; the two nested loops "
+         "(every read past the buffer is an explicit `ub oob_read` outcome of the cursor monad; every int64_t/int sum, "
+         "difference and product whose operands are not bounded by their types is a checked operation with outcome "
+         "`ub signed_overflow` — the waveform length tests w*(n+1), 24*count of the 1.x beat grid, the int index "
+         "difference of the 1.x encode_beatgrid — and the theorems show both unreachable: under the guards of the C++ "
+         "each checked Model function equals its reading in unbounded Int, with concrete overflow witnesses for each "
+         "guard removed), the only exceptions are derived from std::exception; the two nested loops "
          "of zlib_uncompress terminate within an explicit fuel bound linear in the input and never hand zlib a region "
          "outside the input vector, for every inflate oracle honouring an explicit call contract (structure parameter, "
          "no axiom); the pre-fix end pointer is proved to violate it. Tie: the sanitizer build of the real decoders "
@@ -33,11 +52,20 @@ MANIFEST = dict(
          "outcome class — including `ub` kinds — must equal the Model's on every input; any `ub` of the real code is "
          "reported as a violation with the input as replay.",
     note="T (partial): zlib's own memory safety and termination are assumed through the call contract; inputs of the "
-         "tie are at most 64 KiB; allocation failure is not modelled.",
+         "tie are at most 64 KiB (plus the 786 KB beat grids on the 32768-marker cap); allocation failure is not modelled.",
     technique="Lean 4 theorems over a cursor-monad Model with explicit ub outcomes + oracle-generic loop termination proof "
               "+ sanitizer differential run",
     ref="6/C05")
 TRUSTED_EXTRA = ["harness/djv_wrap.cpp (--wrap=inflate region check and call counter)"]
+
+
+# model regenerated from the C++ sources + its equality with the hand model (see props/_implgen.py)
+from props import _implgen
+LEAN_MODULES = LEAN_MODULES + _implgen.LEAN_MODULES
+THEOREMS = THEOREMS + _implgen.THEOREMS_FOR[ID]
+ASSUMPTIONS = ASSUMPTIONS + _implgen.ASSUMPTIONS
+TRUSTED_EXTRA = TRUSTED_EXTRA + _implgen.TRUSTED_EXTRA
+TRANSLATORS = dict(globals().get("TRANSLATORS", {}), **_implgen.TRANSLATORS)
 
 
 def run_both(lines, watchdog=10):
@@ -46,6 +74,10 @@ def run_both(lines, watchdog=10):
     hout = [o for (outs, _) in hres for o in outs]
     mout = [o for outs in runner.run_model(scripts) for o in outs]
     return hout, mout
+
+
+def _i64be(v):
+    return struct.pack(">q", v)
 
 
 def frame(payload, z):
@@ -133,6 +165,39 @@ def gen_inputs(rng, tier, hist):
             addz("z_trailing", "unz", fb + bytes(rng.getrandbits(8) for _ in range(rng.randrange(1, 20))))
             for _ in range(10 if tier == "quick" else 100):
                 addz("z_mutation", "unz", fb[:4] + cd.mutate(fb[4:], rng))
+    # (f) the INPUT chunking of zlib_uncompress (`(ptr + chunk_size) < end ? chunk_size : end - ptr`): framed blobs whose
+    # compressed part is exactly j*16384-1, j*16384, j*16384+1 bytes; the same streams cut at exactly j*16384 bytes
+    # (input exhausted on a chunk boundary before the end of the stream); trailing bytes after a stream that ends on
+    # the boundary.
+    noise = rng.randbytes(4 * cd.CHUNK + 64)
+    for j in ((1, 2) if tier == "quick" else (1, 2, 3, 4)):
+        hit = {}
+        for n in range(j * cd.CHUNK - 80, j * cd.CHUNK + 2):
+            z = zlib.compress(noise[:n], 6)
+            d = len(z) - j * cd.CHUNK
+            if d in (-1, 0, 1) and d not in hit:
+                hit[d] = (noise[:n], z)
+        for d, (p, z) in sorted(hit.items()):
+            fb = frame(p, z)
+            addz("z_chunk_boundary", "unz", fb)
+            key = "z_chunk_boundary:compressed_len=%d*16384%+d" % (j, d)
+            hist[key] = hist.get(key, 0) + 1
+            if d == 0:
+                addz("z_chunk_boundary", "unz", fb + b"\x00")
+                addz("z_chunk_boundary", "unz", fb + rng.randbytes(cd.CHUNK))
+                addz("z_chunk_boundary", "unz", fb[:-1])
+        big = zlib.compress(noise[:j * cd.CHUNK + 40], 6)
+        for cut in (j * cd.CHUNK - 1, j * cd.CHUNK, j * cd.CHUNK + 1):
+            addz("z_chunk_boundary", "unz", frame(noise[:j * cd.CHUNK + 40], big[:cut]))
+            hist["z_chunk_boundary:truncated_at=%d*16384%+d" % (j, cut - j * cd.CHUNK)] = 1
+    # (g) the 1.x beat-grid cap: 32768 markers accepted, 32769 rejected by the count check itself (the body is complete,
+    # so the size check cannot reject it first); 2 accepted, 1 rejected.
+    def beat_payload(n_markers):
+        body = b"".join(struct.pack("<dqii", 100.0 * i, 4 * i, 4 if i + 1 < n_markers else 0, 0) for i in range(n_markers))
+        return struct.pack(">dd", 44100.0, 1e7) + b"\x01" + _i64be(n_markers) + body + _i64be(0)
+    for n in ([32768, 32769] if tier == "quick" else [32767, 32768, 32769, 32770, 65536]) + [1, 2]:
+        add("grid_cap", "v1.beat", beat_payload(n))
+        hist["grid_cap:v1.beat count=%d (complete body)" % n] = 1
     # decz: framed blobs through every compressed decoder
     for k, p in valid[:40 if tier == "quick" else 300]:
         if k in cd.RAW_KINDS or len(p) > 2000:
@@ -153,6 +218,16 @@ def tie(ctx):
     items = gen_inputs(rng, ctx.tier, hist)
     lines = [l for (l, _) in items]
     hout, mout = run_both(lines)
+    # A watchdog expiry that the Model does not predict is re-run alone with a six times longer watchdog before it
+    # counts: on a loaded machine `uncompressed.reserve(2 GiB)` under ASan (shadow poisoning) can take longer than
+    # the 10 s of the bulk run.  A real endless loop still expires (and is then a violation with its input).
+    retry = [i for i, (h, m) in enumerate(zip(hout, mout)) if h == "ub nontermination" and m != h]
+    if 0 < len(retry) <= 16:            # more than a handful is not load
+        res = runner.run_harness([[lines[i]] for i in retry], stateless=True, watchdog=60, jobs=4)
+        for i, (outs, _) in zip(retry, res):
+            hout[i] = outs[0]
+    if retry:
+        hist["watchdog_retry (expired at 10 s in the bulk run, re-run alone at 60 s)"] = len(retry)
     divergences, violations = [], []
     streams, outcomes = {}, {}
     distinct = set()
@@ -187,3 +262,6 @@ def tie(ctx):
         "divergences": divergences[:20],
         "violations": violations[:8],
     }
+
+
+tie = _implgen.wrap_tie(tie)   # + regenerated model vs real library (translator validation)
